@@ -1572,6 +1572,198 @@ static void wlCInt(Ctx& c, int nexec, int len)
    }
 }
 
+// ---------------------------------------------------------------- C08: the internal simplifier stand-alone (spec/TV_Presolve.tla)
+#include "soplex/spxmainsm.h"
+static std::string lpJson(const SPxLPBase<double>& lp)
+{
+   int nr = lp.nRows(), nc = lp.nCols();
+   J o; o.raw("rows", jarr(nr, [&](int i) { std::vector<std::pair<int, std::string>> e; const SVectorBase<double>& v = lp.rowVector(i); for(int k = 0; k < v.size(); k++) e.push_back({v.index(k), qd(v.value(k))}); return jsp(e); }));
+   o.raw("lhs", jarr(nr, [&](int i) { return jq(qd(lp.lhs(i))); })).raw("rhs", jarr(nr, [&](int i) { return jq(qd(lp.rhs(i))); }));
+   o.raw("lo", jarr(nc, [&](int j) { return jq(qd(lp.lower(j))); })).raw("up", jarr(nc, [&](int j) { return jq(qd(lp.upper(j))); }));
+   o.raw("obj", jarr(nc, [&](int j) { return jq(qd(lp.obj(j))); })).i("sense", lp.spxSense() == SPxLPBase<double>::MAXIMIZE ? 1 : -1);
+   return o.str();
+}
+// presolve-specific structures added to a witnessed OPT instance without invalidating its witness
+static void augmentForPresolve(Rng& g, LPData& L)
+{
+   if(L.kind != "OPT") return;
+   double smin = L.sense == 1 ? -1.0 : 1.0;                       // multiply by smin to get the minimisation convention
+   int rounds = g.R(0, 3);
+   for(int t = 0; t < rounds; t++)
+   {
+      int w = g.R(0, 3);
+      if(w == 0 && L.n < 7)
+      {
+         // duplicate (scaled) column, new variable at 0
+         int j = g.R(0, L.n - 1); double f = g.coin() ? 1 : (g.coin() ? 2 : -1);
+         for(int i = 0; i < L.m; i++) L.A[i].push_back(f * L.A[i][j]);
+         double dn = f * L.d[j]; L.c.push_back(f * L.c[j]); L.d.push_back(dn); L.x.push_back(0.0);
+         if(smin * dn > 0) { L.lo.push_back(0.0); L.up.push_back(infinity); } else if(smin * dn < 0) { L.lo.push_back(-infinity); L.up.push_back(0.0); } else { L.lo.push_back(-(double)g.R(0, 2)); L.up.push_back((double)g.R(0, 2)); }
+         L.n++;
+      }
+      else if(w == 1 && L.n < 7 && L.m < 7)
+      {
+         // doubleton equation a x_j + b z = r with a free column singleton z (aggregation / free column singleton reductions)
+         int j = g.R(0, L.n - 1); double a = g.coin() ? 1 : -2, b = g.coin() ? 1 : 2; double z = g.R(-2, 2); double r = a * L.x[j] + b * z;
+         double cz = g.R(-2, 2); double ynew = cz / b;             // d_z = c_z - b y = 0
+         std::vector<double> row(L.n + 1, 0.0); row[j] = a; row[L.n] = b;
+         for(int i = 0; i < L.m; i++) L.A[i].push_back(0.0);
+         L.A.push_back(row); L.lhs.push_back(r); L.rhs.push_back(r); L.y.push_back(ynew); L.m++;
+         L.c.push_back(cz); L.d.push_back(0.0); L.x.push_back(z); L.lo.push_back(-infinity); L.up.push_back(infinity); L.n++;
+         L.c[j] += a * ynew;                                       // keeps d_j = c_j - sum a_ij y_i
+      }
+      else if(w == 2 && L.m < 7)
+      {
+         // redundant singleton row / forcing-free row on x_j
+         int j = g.R(0, L.n - 1); double a = g.coin() ? 2 : -1; std::vector<double> row(L.n, 0.0); row[j] = a; double act = a * L.x[j];
+         L.A.push_back(row); L.lhs.push_back(g.coin() ? -infinity : act - g.R(1, 3)); L.rhs.push_back(g.coin() ? infinity : act + g.R(1, 3)); L.y.push_back(0.0); L.m++;
+      }
+      else if(w == 3 && L.m >= 1 && L.m < 7)
+      {
+         // parallel row with consistent, non-binding sides
+         int i0 = g.R(0, L.m - 1); double f = g.coin() ? 2 : -1; std::vector<double> row(L.n); for(int j = 0; j < L.n; j++) row[j] = f * L.A[i0][j]; double act = dotRow(L, i0, L.x) * f;
+         L.A.push_back(row); L.lhs.push_back(act - g.R(0, 2)); L.rhs.push_back(act + g.R(0, 2)); L.y.push_back(0.0); L.m++;
+      }
+   }
+}
+typedef std::vector<std::vector<Rational>> QMat;
+// solves M z = r exactly (square); returns false if singular
+static bool qsolve(QMat M, std::vector<Rational> r, std::vector<Rational>& z)
+{
+   int n = (int)M.size();
+   for(int c = 0; c < n; c++)
+   {
+      int p = -1; for(int i = c; i < n; i++) if(M[i][c] != 0) { p = i; break; }
+      if(p < 0) return false;
+      std::swap(M[p], M[c]); std::swap(r[p], r[c]);
+      for(int i = 0; i < n; i++) if(i != c && M[i][c] != 0) { Rational f = M[i][c] / M[c][c]; for(int k = c; k < n; k++) M[i][k] -= f * M[c][k]; r[i] -= f * r[c]; }
+   }
+   z.assign(n, Rational(0)); for(int i = 0; i < n; i++) z[i] = r[i] / M[i][i];
+   return true;
+}
+struct Vertex { std::vector<Rational> x, s, y, d; std::vector<int> brow, bcol; };
+// every optimal basic solution of lp (exact arithmetic); variables 0..n-1 structural, n..n+m-1 row activities
+static std::vector<Vertex> optimalVertices(const SPxLPBase<double>& lp, Rng& g, int maxOut)
+{
+   std::vector<Vertex> out; int m = lp.nRows(), n = lp.nCols(); int N = n + m;
+   if(m == 0 || N > 12) return out;
+   Rational posInf(infinity), negInf(-infinity); bool mini = lp.spxSense() == SPxLPBase<double>::MINIMIZE;
+   std::vector<Rational> lo(N), up(N), c(n); QMat A(m, std::vector<Rational>(n, Rational(0)));
+   for(int j = 0; j < n; j++) { lo[j] = Rational(lp.lower(j)); up[j] = Rational(lp.upper(j)); c[j] = Rational(lp.obj(j)); const SVectorBase<double>& v = lp.colVector(j); for(int k = 0; k < v.size(); k++) A[v.index(k)][j] = Rational(v.value(k)); }
+   for(int i = 0; i < m; i++) { lo[n + i] = Rational(lp.lhs(i)); up[n + i] = Rational(lp.rhs(i)); }
+   std::vector<int> comb(m); for(int i = 0; i < m; i++) comb[i] = i;
+   std::vector<std::vector<int>> bases;
+   while(true) { bases.push_back(comb); int i = m - 1; while(i >= 0 && comb[i] == N - m + i) i--; if(i < 0) break; comb[i]++; for(int k = i + 1; k < m; k++) comb[k] = comb[k - 1] + 1; if(bases.size() > 3000) break; }
+   std::shuffle(bases.begin(), bases.end(), g.g);
+   for(auto& B : bases)
+   {
+      if((int)out.size() >= maxOut) break;
+      std::vector<bool> basic(N, false); for(int v : B) basic[v] = true;
+      // nonbasic variables: every choice of a finite bound (free nonbasic: value 0)
+      std::vector<int> nb; for(int v = 0; v < N; v++) if(!basic[v]) nb.push_back(v);
+      int choices = 1; std::vector<int> nopt(nb.size());
+      for(size_t k = 0; k < nb.size(); k++) { int v = nb[k]; bool fl = lo[v] > negInf, fu = up[v] < posInf; nopt[k] = (fl && fu && lo[v] != up[v]) ? 2 : 1; choices *= nopt[k]; if(choices > 64) break; }
+      if(choices > 64) continue;
+      for(int ch = 0; ch < choices && (int)out.size() < maxOut; ch++)
+      {
+         std::vector<Rational> val(N, Rational(0)); std::vector<int> stat(N, (int)SPxSolver::BASIC); int cc = ch;
+         for(size_t k = 0; k < nb.size(); k++)
+         {
+            int v = nb[k]; bool fl = lo[v] > negInf, fu = up[v] < posInf; int pick = cc % nopt[k]; cc /= nopt[k];
+            if(fl && fu && lo[v] == up[v]) { val[v] = lo[v]; stat[v] = SPxSolver::FIXED; }
+            else if(fl && fu) { val[v] = pick ? up[v] : lo[v]; stat[v] = pick ? SPxSolver::ON_UPPER : SPxSolver::ON_LOWER; }
+            else if(fl) { val[v] = lo[v]; stat[v] = SPxSolver::ON_LOWER; } else if(fu) { val[v] = up[v]; stat[v] = SPxSolver::ON_UPPER; } else { val[v] = 0; stat[v] = SPxSolver::ZERO; }
+         }
+         // equations  sum_j A_ij x_j - s_i = 0  in the m basic unknowns
+         QMat M(m, std::vector<Rational>(m, Rational(0))); std::vector<Rational> rhs(m, Rational(0));
+         for(int i = 0; i < m; i++)
+         {
+            for(int k = 0; k < m; k++) { int v = B[k]; M[i][k] = v < n ? A[i][v] : (v - n == i ? Rational(-1) : Rational(0)); }
+            for(int v : nb) rhs[i] -= (v < n ? A[i][v] : (v - n == i ? Rational(-1) : Rational(0))) * val[v];
+         }
+         bool nbOK = true; for(int v : nb) if(val[v] < lo[v] || val[v] > up[v]) nbOK = false;       // (a reduced LP may have crossing bounds)
+         if(!nbOK) continue;
+         std::vector<Rational> z; if(!qsolve(M, rhs, z)) break;            // singular basis: no choice of bounds helps
+         bool feas = true; for(int k = 0; k < m; k++) { val[B[k]] = z[k]; if(z[k] < lo[B[k]] || z[k] > up[B[k]]) feas = false; }
+         if(!feas) continue;
+         // duals: y_i = 0 for basic rows, d_j = 0 for basic columns:  sum_i A_ij y_i = c_j (j basic)
+         std::vector<int> nbRows, bCols; for(int i = 0; i < m; i++) if(!basic[n + i]) nbRows.push_back(i); for(int j = 0; j < n; j++) if(basic[j]) bCols.push_back(j);
+         std::vector<Rational> y(m, Rational(0));
+         if(nbRows.size() != bCols.size()) continue;
+         if(!nbRows.empty()) { int q = (int)nbRows.size(); QMat D(q, std::vector<Rational>(q)); std::vector<Rational> cr(q); for(int a = 0; a < q; a++) { for(int b = 0; b < q; b++) D[a][b] = A[nbRows[b]][bCols[a]]; cr[a] = c[bCols[a]]; }
+            std::vector<Rational> yy; if(!qsolve(D, cr, yy)) continue; for(int b = 0; b < q; b++) y[nbRows[b]] = yy[b]; }
+         std::vector<Rational> d(n); for(int j = 0; j < n; j++) { d[j] = c[j]; for(int i = 0; i < m; i++) d[j] -= A[i][j] * y[i]; }
+         // dual feasibility (minimisation: at lower needs multiplier >= 0, at upper <= 0; rows likewise with y; maximisation mirrored)
+         bool dfe = true; Rational sgn = mini ? Rational(1) : Rational(-1);
+         for(int v = 0; v < N && dfe; v++)
+         {
+            if(basic[v]) continue; Rational mu = sgn * (v < n ? d[v] : y[v - n]);
+            if(stat[v] == SPxSolver::ON_LOWER && mu < 0) dfe = false; if(stat[v] == SPxSolver::ON_UPPER && mu > 0) dfe = false; if(stat[v] == SPxSolver::ZERO && mu != 0) dfe = false;
+         }
+         if(!dfe) continue;
+         Vertex V; V.x.assign(val.begin(), val.begin() + n); V.s.assign(val.begin() + n, val.end()); V.y = y; V.d = d;
+         for(int i = 0; i < m; i++) V.brow.push_back(stat[n + i]); for(int j = 0; j < n; j++) V.bcol.push_back(stat[j]);
+         out.push_back(V);
+      }
+   }
+   return out;
+}
+static std::string solJsonQ(const Vertex& v) { return "{\"x\":" + qvecs(v.x) + ",\"s\":" + qvecs(v.s) + ",\"y\":" + qvecs(v.y) + ",\"d\":" + qvecs(v.d) + ",\"brow\":" + jints(v.brow) + ",\"bcol\":" + jints(v.bcol) + "}"; }
+static void wlPresolve(Ctx& c, int nexec, int len)
+{
+   static const char* kinds[] = {"OPT", "OPT", "OPT", "OPT", "INF", "UNB"};
+   for(int e = 0; e < nexec; e++)
+   {
+      T().line("{\"a\":\"Reset\"}");
+      LPData L = genWitnessed(c.rng, 4, kinds[c.rng.R(0, 5)], c.rng.coin(1, 4) ? 6 : 0); augmentForPresolve(c.rng, L);
+      SPxLPBase<double> lp; lp.changeSense(L.sense == 1 ? SPxLPBase<double>::MAXIMIZE : SPxLPBase<double>::MINIMIZE);
+      for(int j = 0; j < L.n; j++) { DSVector ev; lp.addCol(LPCol(L.c[j], ev, L.up[j], L.lo[j])); }
+      for(int i = 0; i < L.m; i++) { DSVector v; spRowOf(L, i, v); lp.addRow(LPRow(L.lhs[i], v, L.rhs[i])); }
+      {
+         J ev; ev.s("a", "plp").raw("lp", lpJson(lp)).s("kind", L.kind); std::vector<double> act(L.m); for(int i = 0; i < L.m; i++) act[i] = dotRow(L, i, L.x);
+         ev.raw("sol", L.kind == "OPT" ? "{\"x\":" + jdbl(L.x) + ",\"s\":" + jdbl(act) + ",\"y\":" + jdbl(L.y) + ",\"d\":" + jdbl(L.d) + "}" : "{\"x\":[],\"s\":[],\"y\":[],\"d\":[]}");
+         ev.raw("x", L.kind == "UNB" ? jdbl(L.x) : "[]").raw("ray", L.kind == "UNB" ? jdbl(L.ray) : "[]").raw("farkas", L.kind == "INF" ? jdbl(L.farkas) : "[]"); T().line(ev.str());
+      }
+      auto tol = std::make_shared<Tolerances>();
+      for(int round = 0; round < len; round++)
+      {
+         bool keepbounds = c.rng.coin(); unsigned seed = (unsigned)c.rng.R(0, 1000);
+         static SPxOut quiet; quiet.setVerbosity(SPxOut::ERROR);
+         auto simplifyOnce = [&](SPxMainSM<double>& sm, SPxLPBase<double>& work) { sm.setTolerances(tol); sm.setOutstream(quiet); work = lp; work.setTolerances(tol); work.setOutstream(quiet); return (int)sm.simplify(work, 1e9, keepbounds, seed); };
+         SPxMainSM<double> sm0; SPxLPBase<double> red; pending() = "SPxMainSM::simplify"; int res = simplifyOnce(sm0, red);
+         { J ev; ev.s("a", "simplify").b("keepbounds", keepbounds).i("seed", (long)seed).i("result", res).raw("red", lpJson(red)).q("offset", (res == 0 || res == 4) ? sm0.getObjoffset() : 0.0); T().line(ev.str()); }
+         auto pushThrough = [&](const Vertex* V)
+         {
+            SPxMainSM<double> sm; SPxLPBase<double> work; int r2 = simplifyOnce(sm, work); if(r2 != res) { J bad; bad.s("a", "Crash").s("what", "simplify is not deterministic for identical input").s("during", "simplify"); T().line(bad.str()); return; }
+            int rn = V ? work.nRows() : lp.nRows(), cn = V ? work.nCols() : lp.nCols();
+            VectorBase<double> x(cn), y(rn), sl(rn), d(cn); x.clear(); y.clear(); sl.clear(); d.clear();
+            std::vector<SPxSolver::VarStatus> rs((size_t)rn + 1, SPxSolver::BASIC), cs((size_t)cn + 1, SPxSolver::ON_LOWER);
+            if(V) { for(int j = 0; j < cn; j++) { x[j] = (double)V->x[(size_t)j]; d[j] = (double)V->d[(size_t)j]; cs[(size_t)j] = (SPxSolver::VarStatus)V->bcol[(size_t)j]; } for(int i = 0; i < rn; i++) { sl[i] = (double)V->s[(size_t)i]; y[i] = (double)V->y[(size_t)i]; rs[(size_t)i] = (SPxSolver::VarStatus)V->brow[(size_t)i]; } }
+            else for(int j = 0; j < cn; j++) cs[(size_t)j] = lp.lower(j) > -infinity ? SPxSolver::ON_LOWER : (lp.upper(j) < infinity ? SPxSolver::ON_UPPER : SPxSolver::ZERO);
+            bool threw = false; pending() = "SPxMainSM::unsimplify";
+            try { sm.unsimplify(x, y, sl, d, rs.data(), cs.data(), true); } catch(const SPxException&) { threw = true; }
+            J ev; ev.s("a", "unsimp").b("threw", threw);
+            if(V) ev.raw("inq", solJsonQ(*V)).raw("in", "{\"x\":" + dvec(x) + ",\"s\":" + dvec(sl) + ",\"y\":" + dvec(y) + ",\"d\":" + dvec(d) + "}");
+            else ev.raw("inq", "{\"x\":[],\"s\":[],\"y\":[],\"d\":[],\"brow\":[],\"bcol\":[]}").raw("in", "{\"x\":[],\"s\":[],\"y\":[],\"d\":[]}");
+            if(!threw)
+            {
+               int onr = lp.nRows(), onc = lp.nCols(); std::vector<SPxSolver::VarStatus> orow((size_t)onr + 1), ocol((size_t)onc + 1); sm.getBasis(orow.data(), ocol.data(), onr, onc);
+               ev.raw("out", "{\"x\":" + dvec(sm.unsimplifiedPrimal()) + ",\"s\":" + dvec(sm.unsimplifiedSlacks()) + ",\"y\":" + dvec(sm.unsimplifiedDual()) + ",\"d\":" + dvec(sm.unsimplifiedRedCost()) + ",\"brow\":" + statuses(orow.data(), onr) + ",\"bcol\":" + statuses(ocol.data(), onc) + "}");
+            }
+            else ev.raw("out", "{\"x\":[],\"s\":[],\"y\":[],\"d\":[],\"brow\":[],\"bcol\":[]}");
+            T().line(ev.str());
+         };
+         if(res == (int)SPxSimplifier<double>::VANISHED) pushThrough(nullptr);
+         else if(res == (int)SPxSimplifier<double>::OKAY)
+         {
+            if(red.nRows() == 0) continue;                              // (an LP without rows is not handed to the simplex either)
+            std::vector<Vertex> vs = optimalVertices(red, c.rng, 6);
+            for(const Vertex& V : vs) pushThrough(&V);
+         }
+      }
+   }
+}
+
 // ---------------------------------------------------------------- C14: basis files
 static std::string fileTokens(const std::string& fn)
 {
@@ -1840,6 +2032,7 @@ static int runWorkload(Ctx& c, const std::string& wl, int len)
    else if(wl == "basfile") wlBasFile(c, 1, len);
    else if(wl == "exact") wlExact(c, 1, len, 5);
    else if(wl == "exactbig") wlExact(c, 1, len, 12);
+   else if(wl == "presolve") { wlPresolve(c, 1, len); }
    else if(wl == "cint") { wlCInt(c, 1, len); }
    else if(wl == "binvq") { g_wellScaled = false; wlBinvQ(c, 1, len); }
    else if(wl == "binv") { g_wellScaled = false; wlBinv(c, 1, len); }
